@@ -75,6 +75,8 @@ structure ExtAns (σ : Type) where
   rc : BitVec 64
   aux : BitVec 64
   st : σ
+  /-- what a callee that fills a buffer (rtr_receive_pdu) left in it -/
+  buf : List (BitVec 8) := []
 
 /-- the world of a function whose callees are not translated (the state machine): the i-th external call is answered by
     `ext i`; `trace` records every call with its name, its recorded scalar arguments and the record at the time of the call -/
@@ -85,6 +87,14 @@ structure XWorld (σ : Type) where
 
 def xcall {σ : Type} (w : XWorld σ) (name : String) (args : List (BitVec 64)) (s : σ) : BitVec 64 × BitVec 64 × σ × XWorld σ :=
   ((w.ext w.n).rc, (w.ext w.n).aux, (w.ext w.n).st, { w with n := w.n + 1, trace := w.trace ++ [(name, args, s)] })
+
+/-- an external call that also fills the function's buffer -/
+def xcallBuf {σ : Type} (w : XWorld σ) (name : String) (args : List (BitVec 64)) (s : σ) :
+    BitVec 64 × BitVec 64 × σ × List (BitVec 8) × XWorld σ :=
+  ((w.ext w.n).rc, (w.ext w.n).aux, (w.ext w.n).st, (w.ext w.n).buf, { w with n := w.n + 1, trace := w.trace ++ [(name, args, s)] })
+
+/-- memory holding a byte string (zeros beyond it) -/
+def memOfBytes (l : List (BitVec 8)) : Nat → BitVec 8 := fun a => l.getD a 0#8
 
 /-- fuel of translated loops: more iterations than any counter of the translated code can count -/
 def FUEL : Nat := 2 ^ 64 + 1
